@@ -271,7 +271,9 @@ func (e *Endpoint) ReadMsgUDP(b, oob []byte) (n, oobn, flags int, addr *net.UDPA
 			e.q = e.q[1:]
 			e.mu.Unlock()
 			n = copy(b, p.data)
-			return n, 0, 0, p.src, nil
+			// a fresh address object per read, as the net package returns
+			src := &net.UDPAddr{IP: append(net.IP(nil), p.src.IP...), Port: p.src.Port, Zone: p.src.Zone}
+			return n, 0, 0, src, nil
 		}
 		if e.closed {
 			e.mu.Unlock()
